@@ -3,7 +3,7 @@
    knot vector, and the interpolation solve interp_1d Qops returns control points solving the collocation system. *)
 From Coq Require Import List QArith Reals Qreals Lra Lia Arith Bool.
 From NV Require Import Scalar.Ops Model.Common Model.Basis Model.LinAlg Model.Fit
-  Proofs.LinAlgSums Proofs.LinAlgR Proofs.LinAlgSolve Proofs.FitR Proofs.CollocationLU Proofs.CollocationLUMore
+  Proofs.LinAlgSums Proofs.LinAlgR Proofs.LinAlgSolve Proofs.FitR Proofs.CollocationLU Proofs.CollocationLUMore Proofs.ApproxLU
   Transfer.LinAlgT Transfer.FitT.
 Import ListNotations.
 
@@ -62,6 +62,33 @@ Example collocation_Q_example :
 Proof.
   cbv zeta. split; [|vm_compute; reflexivity].
   apply collocation_pivots_nonzero_Q; try lia; try reflexivity.
+  intros i Hi. assert (C : (i = 0 \/ i = 1 \/ i = 2 \/ i = 3)%nat) by lia.
+  destruct C as [-> | [-> | [-> | ->]]]; vm_compute; reflexivity.
+Qed.
+
+(* ------------------------------------------------------------------ least squares (normal equations), executable instance *)
+(* [G] rational parameters 0 = u_0 < .. < u_{r-1} = 1, p >= 1, p + 2 <= c <= r - 1: the executable Doolittle factorisation of
+   N^T N (knots of Eq 9.69) meets no zero pivot *)
+Theorem approx_normal_pivots_nonzero_Q : forall (p r c : nat) (uk : list Q), (1 <= p)%nat -> (p + 2 <= c)%nat -> (c < r)%nat ->
+  length uk = r -> (nth 0 uk 0 == 0)%Q -> (nth (r - 1) uk 0 == 1)%Q -> (forall i, (S i < r)%nat -> (nth i uk 0 < nth (S i) uk 0)%Q) ->
+  forall i, (i < c - 2)%nat ->
+    let Nm := approx_N Qops p c (compute_knot_vector2 Qops p r c uk) uk r in
+    ~ (get2 Qops (snd (doolittle Qops (mmul Qops (transpose Qops Nm) Nm))) i i == 0)%Q.
+Proof.
+  intros p r c uk Hp Hc Hr HL H0 H1 Hinc i Hi Nm E.
+  destruct (params_R r uk HL H0 H1 Hinc) as (L & P0 & P1 & Pinc).
+  apply (approx_normal_pivots_nonzero p r c (map Q2R uk) Hp Hc Hr L P0 P1 Pinc i Hi).
+  cbv zeta. rewrite knot_vector2_transfer, approx_N_transfer, transpose_transfer, mmul_transfer, doolittle_transfer. cbn [snd].
+  rewrite get2_transfer. fold Nm. rewrite (Qeq_eqR _ _ E). apply Q2R_0.
+Qed.
+Print Assumptions approx_normal_pivots_nonzero_Q.
+
+Example approx_Q_example :
+  let uk := [0; 5#18; 1#2; 7#9; 1]%Q in
+  let Nm := approx_N Qops 2 4 (compute_knot_vector2 Qops 2 5 4 uk) uk 5 in
+  forall i, (i < 4 - 2)%nat -> ~ (get2 Qops (snd (doolittle Qops (mmul Qops (transpose Qops Nm) Nm))) i i == 0)%Q.
+Proof.
+  cbv zeta. apply approx_normal_pivots_nonzero_Q; try lia; try reflexivity.
   intros i Hi. assert (C : (i = 0 \/ i = 1 \/ i = 2 \/ i = 3)%nat) by lia.
   destruct C as [-> | [-> | [-> | ->]]]; vm_compute; reflexivity.
 Qed.
